@@ -55,13 +55,19 @@ def run_with_edits(pcode: str, edits: list[tuple[int, list]], total: int):
             cur = [(ln.id, ln.content) for ln in mm._method.lines]
             new = apply_edit_script(cur, script)
             old_map = dict(cur)
-            prot = set(before.started_line_ids) | set(before.executed_line_ids)
+            # what the interpreter has really started (the method manager's own view is detached after a first edit)
+            prot = {n.id for n in run.engine.interpreter._program.get_all_nodes()
+                    if (n.started or n.completed) and not n.failed}
             touches_started = any(i in prot and i in old_map and old_map[i] != c for i, c in new)
             marks_before = marks_of(snap) if snap else []
+            status_before = (str(run.snapshot()["raw_tags"].get("Method Status")), str(run.snapshot()["raw_tags"].get("System State")),
+                             run.engine.has_error_state())
             m = run.Mdl.Method(lines=[run.Mdl.MethodLine(id=i, content=c) for i, c in new], version=0)
             res = run.edit(m)
             after = run.engine.method_manager.get_method_state()
-            info.append({"at": at, "res": res, "touches_started": touches_started, "new": new,
+            status_after = (str(run.snapshot()["raw_tags"].get("Method Status")), str(run.snapshot()["raw_tags"].get("System State")),
+                            run.engine.has_error_state())
+            info.append({"status_before": status_before, "status_after": status_after,"at": at, "res": res, "touches_started": touches_started, "new": new,
                          "before": {"started": list(before.started_line_ids), "executed": list(before.executed_line_ids),
                                     "failed": list(before.failed_line_ids)},
                          "after": {"started": list(after.started_line_ids), "executed": list(after.executed_line_ids),
@@ -88,6 +94,10 @@ def oracle(case) -> list[Failure]:
         if e["touches_started"] and e["res"] == "ok":
             fails.append(Failure("edit-of-started-line-accepted" + sfx, case,
                                  f"edit at tick {e['at']} changes a started/executed line and was accepted"))
+        if e["res"] != "ok" and e["status_before"] != e["status_after"]:
+            fails.append(Failure("rejected-edit-changed-engine-state" + sfx, case,
+                                 f"rejected edit at tick {e['at']}: (Method Status, System State, error) "
+                                 f"{e['status_before']} -> {e['status_after']}"))
         if e["res"] == "ok":
             accepted_any = True
             lost = [i for k in ("started", "executed", "failed") for i in e["before"][k]
@@ -130,14 +140,31 @@ def oracle(case) -> list[Failure]:
     return fails
 
 
+def template_cases() -> list[dict]:
+    """Hand-made shapes: a not-started line above executed lines; a failed line above; a run halted in error."""
+    out = []
+    shapes = ["Watch: T0 > 5\n    Mark: w\nMark: a\nMark: b\nWait: 2s\nMark: c",
+              "Macro: M\n    Mark: m\nMark: a\nMark: b\nWait: 2s\nMark: c",
+              "Mark: a\nFrobnicate\nMark: b",
+              "Mark: a\nMark: b\nCmdNum: lots\nMark: c",
+              "Block: B\n    Mark: a\n    Wait: 2s\n    End block\nMark: z"]
+    for sh in shapes:
+        n = len(sh.splitlines())
+        for at in (8, 12, 16):
+            for k in range(n):
+                out.append({"pcode": sh, "edits": [[at, [["change", (k + 0.5) / n, "Mark: edited"]]]], "total": 60})
+            out.append({"pcode": sh, "edits": [[at, [["append", "Mark: appended"]]]], "total": 60})
+    return out
+
+
 WITNESS = {"pcode": "Mark: a\nWait: 1s\nMark: b", "edits": [(8, [["append", "Mark: c"]])], "total": 60}
 
 
 def gen_oracle_cases(ctx: Check, n: int) -> list[dict]:
     rng = ctx.rng
-    out = [WITNESS] + [k["witness"] for k in ctx.known if k.get("witness")]
+    out = [WITNESS] + [k["witness"] for k in ctx.known if k.get("witness")] + template_cases()
     for _ in range(n):
-        pcode, _ = gen_program(rng, features={"mark", "wait", "cmd", "block", "watch", "thr"}, max_lines=8, max_depth=2)
+        pcode, _ = gen_program(rng, features={"mark", "wait", "cmd", "block", "watch", "thr", "macro"}, max_lines=8, max_depth=2)
         n_edits = rng.choice([1, 1, 1, 2])
         edits = sorted((rng.randrange(2, 40), gen_edit_script(rng)) for _ in range(n_edits))
         out.append({"pcode": pcode, "edits": [list(e) for e in edits], "total": 140})
